@@ -165,6 +165,8 @@ Obs(st, m, sq) ==
     /\ R("seqn") \/ st.seqn = sq
     /\ R("root") \/ st.rootOk
     /\ IF R("dec") \/ "dec" \notin DOMAIN st THEN TRUE ELSE st.dec.ok /\ st.dec.kvOk   \* C16 on recovered images
+    \* C19 on recovered images: what the recovering process reports is what the recovered files hold
+    /\ IF R("alloc") \/ "dec" \notin DOMAIN st THEN TRUE ELSE st.dec.noLeak /\ st.dec.occupiedOk
 
 NewMapOf(o) ==
     IF o.a \in {"Commit", "TryCommit"} THEN Apply(kv, fin[o.f].w)
